@@ -30,6 +30,10 @@ def get_db(name):
     """Context databases by name.  'default' is the default latexwalker database."""
     if name == 'none':
         return None
+    if name == 'default_percall':
+        # what LatexWalker(s) does when no context is given: a new default database for every walker
+        from pylatexenc.latexwalker import get_default_latex_context_db
+        return get_default_latex_context_db()
     if name not in _db_cache:
         if name == 'default':
             from pylatexenc.latexwalker import get_default_latex_context_db
